@@ -497,7 +497,7 @@ class Exec:
             cond_x = z3.And(src.setview[x], *[ops.truth(st, pe2.ev(c)) for c in g.ifs])
             setview = S.set_builder_mem((x,), x, cond_x, term_of(pe2.ev(e.elt)))
         res = SSeq(body.ty, n, arr, setview=setview)
-        return k(res, ops.seq_setview_facts(st, res))
+        return k(res, ops.elem_inv_facts(ops.seq_setview_facts(st, res), res))
 
     def ev_DictComp(self, e, st, k):
         """{key(x): val(x) for x in seq}: last write wins."""
@@ -559,6 +559,7 @@ class Exec:
         st2, sq = self._iter_seq(it, st)
         if st2 is not st and getattr(sq, "setview", None) is not None and not isinstance(it, SSeq):
             st2 = ops.seq_setview_facts(st2, sq)        # a fresh enumeration of a dict / set
+            st2 = ops.elem_inv_facts(st2, sq)
         return st2, sq
 
     def _iter_seq(self, it, st):
@@ -581,7 +582,9 @@ class Exec:
                 return st, SSeq(c.kty, n, self._norm(karr, n, S.sort_of(c.kty)), setview=c.dom)
             if it.kind == "values":
                 vs = S.sort_of(c.vty)
-                arr = z3.Lambda([i], z3.If(z3.And(i >= 0, i < n), c.val[karr[i]], S.dflt(vs)))
+                arr = S.fresh("vs.arr", z3.ArraySort(z3.IntSort(), vs))        # the values in key order
+                st = st.fact(S.seq_norm(n, arr, vs))
+                st = st.fact(z3.ForAll([i], z3.Implies(z3.And(i >= 0, i < n), arr[i] == c.val[karr[i]])))
                 return st, SSeq(c.vty, n, arr, setview=ops.vals_mem(c.kty, c.vty, c.dom, c.val))
         if isinstance(it, SSetV):
             st, n, karr = ops.set_keyseq(st, it.elem, it.mem)
@@ -593,8 +596,7 @@ class Exec:
         raise Unsupported(f"iteration over {it}")
 
     def _norm(self, arr, n, es):
-        i = z3.Int("i!n")
-        return z3.Lambda([i], z3.If(z3.And(i >= 0, i < n), arr[i], S.dflt(es)))
+        return arr            # ops.dict_keyseq already yields a normalised array constant
 
 
 class EmptySeq(SSeq):
